@@ -29,7 +29,12 @@ var (
 	Sys *emulator.System
 )
 
-func init() {
+func init() { Rebuild() }
+
+// Rebuild makes fresh interpreter objects over the same memories. The engine forks every job from the
+// state after package initialisation; the native replayer calls Rebuild before every job, so that state
+// an interpreter keeps outside the fields the harnesses overwrite starts from its zero value there too.
+func Rebuild() {
 	MainBus, _ = bus.New()
 	if err := MainBus.Attach(memory.NewRAM(MainMem, 0), "ram", 0x000000, 0xFFFFFF); err != nil {
 		panic(err)
